@@ -398,9 +398,48 @@ def c07_corpus():
         # a call factor next to a factor that flatten reduces to 0 (C07-K2)
         pg.P1([["assign_call", ["<state>z"], "<func>g", [MUL(G(C(0)), ["/", C(0), DT])], {}]]),
     ]
+    # a tagged variable next to a user variable spelled like its identifier form (or like the eliminator's temporary
+    # for it), both read and written by one statement, then both self-updated again
+    for tagged in ("<p>k", "<state>z"):
+        ident = tagged.replace("<", "_").replace(">", "_")
+        for alias in (ident, "temp_" + ident, "temp_" + ident + "_0"):
+            progs.append(pg.P1([["assign", alias, ADD(Y, C(1)), []],
+                                ["assign_call", [tagged, alias], "<func>h2", [V(tagged), V(alias)], {}],
+                                ["assign", alias, ADD(V(alias), V(tagged)), []],
+                                ["assign", tagged, MUL(V(tagged), V(alias)), []],
+                                ["assign", "<state>y", ADD(V(tagged), V(alias)), []]]))
     for i, p in enumerate(progs):
         p["name"] = "c07_%d" % i
     return progs
+
+
+def adversarial_names(prog):
+    """Names a user could have chosen that resemble what the passes generate for THIS program: the identifier
+    form of every tagged name (<p>k -> _p_k), the eliminator's temp_ prefix on it, and the isolators' / expander's
+    fixed prefixes with and without a counter suffix."""
+    import re
+    out = []
+    for n in sorted(pg.var_roles(prog)):
+        if n.startswith("<cond>"):
+            continue
+        ident = re.sub("[^0-9a-zA-Z_]", "_", n)
+        if ident != n:
+            out.append(ident)
+        out += ["temp_" + ident, "temp_" + ident + "_0"]
+    return out + ["tmp", "tmp_0", "tmp_1", "ifthenelse_result", "ifthenelse_result_0", "temp", "temp_0"]
+
+
+def adversarial_rename(prog, rng):
+    roles = pg.var_roles(prog)
+    users = [n for n in ("a", "b", "c") if n in roles]
+    pool = [n for n in adversarial_names(prog) if n not in roles]
+    if not users or len(pool) < len(users):
+        return None
+    rng.shuffle(pool)
+    # identifier forms of tagged names first, half of the time
+    if rng.random() < 0.5:
+        pool.sort(key=lambda n: not n.startswith("_"))
+    return pg.rename_vars(prog, dict(zip(users, pool)))
 
 
 def selftests():
@@ -440,13 +479,22 @@ def main(tier, seed):
     ncur = len(progs)
     rng = random.Random(seed)
     nrand = 150 if tier == "quick" else 1500
-    g = pg.ProgGen(rng, max_ops=6, multi_phase=False)
+    g = pg.ProgGen(rng, max_ops=6, multi_phase=False,
+                   pair_targets=[("a", "b"), ("<p>k", "a"), ("<state>z", "b"), ("<state>y", "c"), ("b", "<state>z")])
+    nren = 0
     for i in range(nrand):
-        progs.append(g.program(i))
+        prog = g.program(i)
+        progs.append(prog)
+        if i % 2 == 0:
+            ren = adversarial_rename(prog, rng)
+            if ren is not None:
+                ren["name"] = prog["name"] + "_renamed"
+                progs.append(ren)
+                nren += 1
     max_paths = 60 if tier == "quick" else 250
     for part in pmap("vf.checks.c07", "work", [{"progs": p, "max_paths": max_paths} for p in chunks(progs, common.NPROC * 6)]):
         run.absorb(part)
-    run.bounds = {"curated_programs": ncur, "random_programs": nrand, "passes": list(passes()),
+    run.bounds = {"curated_programs": ncur, "random_programs": nrand, "renamed_variants": nren, "passes": list(passes()),
                   "fortran_order_read_from_source": fortran_pass_order(),
                   "max_paths_per_phase_and_pass": max_paths, "expression_depth": "<= 3 (curated up to 5)",
                   "loop_trip_counts": "0..3", "array_length": 3}
